@@ -33,6 +33,10 @@ ENG_A = "simio"
 ENG_B = "simnet"
 
 CHECKS = {
+ "C29": dict(level="exploration", engine=ENG_B, design="DESIGN.md §4 C29",
+   technique="deterministic multi-node simulation at the libc socket seam: a real requestor node (establish / establish_async through an interposed connect()) and a real acceptor node in the four sync/async pairings under a seeded scheduler (interleaving, short sends, partial deliveries, short receives); agreement and PDU-limit invariants over the recorded wire history and both sides' views",
+   text="Seeded search over requestor options x acceptor options x transfer scripts x network schedules with BOTH peers running unmodified dicom-rs code. Invariants: both sides report the same accepted contexts, equal to the negotiation model applied to the request actually seen on the wire; each side's peer maximum equals what the other advertised (0 -> largest, clamp); proposed ids distinct and odd; NoAcceptedPresentationContexts iff nothing is acceptable; every P-DATA PDU on the wire is within the receiver's maximum; a send above the peer's maximum returns SendTooLongPdu and leaves nothing on the wire (the accepted sends equal the P-DATA PDUs on the wire, in order); release succeeds after a clean exchange.",
+   note="No connection faults in this check (C30/C34 carry those). send_pdata streams run on sync sides only: AsyncPDataWriter::drop calls block_in_place, which panics on the current-thread runtime the simulator schedules (its fragmentation is covered by C26). A local maximum below 1018 (e.g. 0) makes a side refuse every PDU including the negotiation PDUs: such runs are checked to fail at establishment."),
  "C28": dict(level="exploration", engine=ENG_B, design="DESIGN.md §4 C28",
    technique="deterministic multi-node simulation at the libc socket seam: the real establish()/establish_async() run as a node on a simulated connection against a scripted requestor node; a seeded scheduler decides node interleaving, send sizes, delivery segmentation and receive sizes; the wire bytes and the returned association are compared with an executable negotiation model",
    text="Seeded search over acceptor configurations x association requests (independent PS3.8 encoder, padded UIDs, many contexts, every user-information item) x network schedules. The unmodified ServerAssociationOptions::establish and establish_async bodies run on real std/tokio TcpStream values whose descriptors are simulated; what the acceptor puts on the wire (one result per proposed context with the same id, acceptance exactly per the abstract/transfer syntax rules with the first acceptable proposed transfer syntax, the rejection reasons, the advertised maximum length) and what the returned association reports (contexts, requestor/acceptor maximum PDU length with 0 -> largest, absent -> default) must equal the model.",
